@@ -86,7 +86,7 @@ def _call(draw):
     if mode == "unknown":
         return {"mode": mode, "m": draw(st.sampled_from(["retrieve_object", "delete_object", "get_hex_digest",
                                                          "retrieve_metadata", "retrieve_metadata_fmt"])),
-                "pid": draw(st.sampled_from(["unknown-pid", "nobj", "p1x"]))}
+                "pid": draw(st.sampled_from(["unknown-pid", "nobj", "p1x", "gone", "gone"]))}
     if mode == "pairing":
         return {"mode": mode, "which": draw(st.sampled_from(["checksum-only", "algo-only"])),
                 "content": draw(st.sampled_from(["new", "existing"])), "pid": draw(st.sampled_from(PIDS + ["fresh"])),
@@ -113,7 +113,8 @@ def _case(draw, tier):
         # and returns normally): a left-over marker, and whatever the instance remembers about it, must not be touched by a
         # rejected or read-only call either
         if draw(st.integers(0, 3)) == 0:
-            hist += [{"op": "store", "pid": "gone", "c": 1}, {"op": "delete", "pid": "gone", "fault": "marker-remove"}]
+            hist += [{"op": "store", "pid": "gone", "c": draw(st.sampled_from([1, 1, 0]))},
+                     {"op": "delete", "pid": "gone", "fault": draw(st.sampled_from(["marker-remove", "marker-remove-all"]))}]
     return {"cfg": {"algo": "SHA-256", "depth": 3, "width": 2}, "contents": [{"hex": "61626364"}, {"hex": "78"}],
             "docs": [{"hex": "6d31"}, {"hex": "6d32"}], "ops": hist, "call": draw(_call()), "populated": pop}
 
